@@ -23,9 +23,11 @@ def generic_stream(name, cmd, prefix, prop, ctx, fingerprint_of=None, sample_n=3
     # oracle failures: lines "<Cxx> <fingerprint> :: <description> :: <replay json>" or free text
     for line in read_lines(prefix + ".oracle"):
         parts = line.split(" ", 1)
-        if parts[0] != prop and not ctx.get("all_props"):
-            continue
         body = parts[1] if len(parts) > 1 else ""
+        # the death of the process inside a case of this property's stream counts for this property:
+        # whatever the property promises about the operations of that case was not delivered
+        if parts[0] != prop and not ctx.get("all_props") and not body.startswith("process-abort"):
+            continue
         fp = body.split(" :: ")[0] if " :: " in body else (fingerprint_of(body) if fingerprint_of else body[:80])
         res["I"].append({"stream": name, "fingerprint": fp.replace(" ", "_"), "what": body, "ops_file": prefix + ".ops"})
     if ctx["driver_ok"]:
@@ -241,8 +243,9 @@ def conc_stream(which, klass=0, scen_fn=None, tag="c"):
     return run
 
 
-def stress_stream(which):
-    """Uncontrolled multi-thread runs (no hooks installed). Oracle failures only; a search aid, not a proof."""
+def stress_stream(which, scale=1.0):
+    """Uncontrolled multi-thread runs (no hooks installed). Oracle failures only; a search aid, not a proof.
+    `which` names the stress mode (c03: interning protocol, c05: storage, c09: budget)."""
     def run(ctx):
         name = f"stress:{which}"
         res = {"name": name, "I": [], "M": [], "stats": {}, "samples": []}
@@ -252,6 +255,7 @@ def stress_stream(which):
             iters, threads = 4000, 12
         else:
             iters, threads = 120, 8
+        iters = max(1, int(iters * scale))
         cmd = [os.path.join(BIN, "stress"), which.lower(), str(iters), str(threads), str(ctx["seed"])]
         rc, out = sh(cmd, timeout=3600)
         lines = out.splitlines()
@@ -277,17 +281,17 @@ import probes
 
 PROPS = {
     "C01": {
-        "streams": [seq_stream("core", "C01"), seq_stream("views", "C01"), conc_stream("C01")],
+        "streams": [seq_stream("core", "C01"), seq_stream("views", "C01"), conc_stream("C01"), stress_stream("C03"), stress_stream("C05", 0.5)],
         "trusted_base": SEQ_TRUST,
         "assumptions": ["concurrent interner: one-thread semantics here; schedules are C03/C05"],
     },
     "C02": {
-        "streams": [seq_stream("core", "C02"), seq_stream("growth", "C02"), conc_stream("C02")],
+        "streams": [seq_stream("core", "C02"), seq_stream("growth", "C02"), conc_stream("C02"), stress_stream("C03")],
         "trusted_base": SEQ_TRUST,
         "assumptions": ["concurrent interner: one-thread semantics here; the re-check under the shard lock is C03"],
     },
     "C07": {
-        "streams": [seq_stream("exhaust", "C07"), seq_stream("mem", "C07"), conc_stream("C07")],
+        "streams": [seq_stream("exhaust", "C07"), seq_stream("mem", "C07"), conc_stream("C07"), stress_stream("C03")],
         "trusted_base": SEQ_TRUST + ["Rodeo: a failing call returns no new state in the model; that the code mutated nothing is checked by the post-failure sweeps of the correspondence run"],
         "assumptions": [],
     },
@@ -297,7 +301,7 @@ PROPS = {
         "assumptions": [],
     },
     "C10": {
-        "streams": [seq_stream("iter", "C10"), seq_stream("core", "C10")],
+        "streams": [seq_stream("iter", "C10"), seq_stream("core", "C10"), stress_stream("C03")],
         "trusted_base": SEQ_TRUST + ["std's slice::Iter / Enumerate (modelled as a list state machine)"],
         "assumptions": [],
     },
@@ -312,7 +316,7 @@ PROPS = {
         "assumptions": [],
     },
     "C04": {
-        "streams": [seq_stream("mem", "C04"), seq_stream("clone", "C04"), seq_stream("views", "C04")],
+        "streams": [seq_stream("mem", "C04"), seq_stream("clone", "C04"), seq_stream("views", "C04"), stress_stream("C05", 0.5)],
         "trusted_base": SEQ_TRUST + ["Drop/free-exactly-once is not modelled: checked on the real code by the counting allocator of the harness"],
         "assumptions": ["use of freed memory by safe user code is C20; concurrent regions are C05"],
     },
@@ -358,7 +362,7 @@ PROPS = {
         "assumptions": [],
     },
     "C03": {
-        "streams": [conc_stream("C03")],
+        "streams": [conc_stream("C03"), stress_stream("C03", 3.0)],
         "trusted_base": ["dashmap: a shard is a hash table behind an RwLock, get/entry/insert take the locks they say (modelled, not verified)",
                          "atomics on a sequentially consistent interleaving at the granularity of the schedule points (every atomic op, lock acquisition and map insert of the interning path has its own point)",
                          "store_str is one step at this granularity (its own interleavings: C05); string contents are stable (C01/C05)",
